@@ -3,6 +3,7 @@ package rules
 import (
 	"go/ast"
 	"go/token"
+	"go/types"
 	"strings"
 
 	"golang.org/x/tools/go/packages"
@@ -228,8 +229,20 @@ func R13EventLog(c *Ctx) {
 				// ExceptClient (free variable) compared with the ranged key
 				isEx := func(v ssa.Value) bool {
 					return DerivesFrom(v, func(w ssa.Value) bool {
+						// the captured string parameter of EventBroadcast (its only string parameter), not matched by name
 						fv, ok := w.(*ssa.FreeVar)
-						return ok && fv.Name() == "ExceptClient"
+						if !ok {
+							return false
+						}
+						bt, isB := fv.Type().Underlying().(*types.Pointer)
+						if isB {
+							if sb, ok := bt.Elem().Underlying().(*types.Basic); ok && sb.Kind() == types.String {
+								return true
+							}
+							return false
+						}
+						sb, ok2 := fv.Type().Underlying().(*types.Basic)
+						return ok2 && sb.Kind() == types.String
 					})
 				}
 				isKey := func(v ssa.Value) bool {
